@@ -43,7 +43,7 @@ GenNext == /\ \/ \E k \in 1..7 : Send(MsgPick(k))
                                                   [] OTHER -> LET t == TamperList[(Mix(k) % Len(TamperList)) + 1] IN Tamper(WirePick(k), t.f, t.b)
               \/ Reflect(MsgPick(1), rc)
               \/ Reflect(MsgPick(2), (sc + M - 1) % M)
-           /\ Log
+           /\ UNCHANGED hist
 EnumNext == Len(hist) <= Depth /\ Next /\ Log
 \* one line per complete behaviour
 Leaf == Len(hist) = Depth + 1
